@@ -23,7 +23,7 @@ from .flow import op_place, pelem
 
 PURE = re.compile(
     r"(PartialEq::(eq|ne)|PartialOrd::(lt|le|gt|ge)|::is_empty|::is_some|::is_none|::is_ok|::is_err|"
-    r"::contains|::contains_key|::is_undo_point|::starts_with|::len|::is_known_key|::is_synthetic|::is_user)$"
+    r"::contains|::contains_key|::is_undo_point|::starts_with|::ends_with|::len|::is_known_key|::is_synthetic|::is_user)$"
 )
 LOG_MACRO = re.compile(r"(Bang:)?(\$crate::)?(__log|log|trace|debug|info|warn|error|log_enabled)$")
 
